@@ -1,6 +1,7 @@
 """prophyc runner (DESIGN 2.6): in-process with a sys.monitoring LINE-event budget and outcome
 classification; subprocess CLI runner; 'open' audit hook."""
 import os
+import signal
 import subprocess
 import sys
 
@@ -8,6 +9,9 @@ from . import REPO, PYTHON
 from .pyrt import quiet
 
 TOOL = 4
+# CPU seconds (user time of this process, load-independent) one prophyc.main call may burn before it is a hang;
+# valid compiles of the generated inputs take well under a second
+CPU_BUDGET = int(os.environ.get('PVF_CPU_BUDGET', '40'))
 
 
 class StepBudgetExceeded(BaseException):
@@ -39,15 +43,40 @@ class Stepper(object):
                                                      if code.co_filename.startswith(REPO) else code.co_filename,
                                                      line, code.co_name), self.count)
 
+    def _cpu(self, signum, frame):
+        """ITIMER_VIRTUAL fired: CPU_BUDGET seconds of *CPU time* of this process were spent in one call without the
+        LINE budget being reached - a loop below the Python level (e.g. a backtracking regular expression)."""
+        f, where = frame, None
+        while f is not None:
+            fn = f.f_code.co_filename
+            if where is None or fn.startswith(REPO):
+                where = '%s:%d (%s)' % (os.path.relpath(fn, REPO) if fn.startswith(REPO) else fn, f.f_lineno,
+                                        f.f_code.co_name)
+                if fn.startswith(REPO):
+                    break
+            f = f.f_back
+        self.budget = 1 << 62
+        raise StepBudgetExceeded('cpu %ds %s' % (CPU_BUDGET, where), self.count)
+
     def run(self, fn, budget):
         mon = sys.monitoring
         self.count = 0
         self.budget = budget
+        armed = False
+        try:
+            old = signal.signal(signal.SIGVTALRM, self._cpu)
+            signal.setitimer(signal.ITIMER_VIRTUAL, CPU_BUDGET)
+            armed = True
+        except ValueError:      # not the main thread: only the LINE budget applies
+            pass
         mon.set_events(TOOL, mon.events.LINE)
         try:
             return fn()
         finally:
             mon.set_events(TOOL, 0)
+            if armed:
+                signal.setitimer(signal.ITIMER_VIRTUAL, 0)
+                signal.signal(signal.SIGVTALRM, old)
             self.budget = 1 << 62
 
     def close(self):
